@@ -452,6 +452,61 @@ check("classify: quoting is compared with its own case partner", sorted(k[0] for
 a = run_classify("select ~k from ~t", lambda s: False, kind="SELECT")
 check("classify: silent", (a.viol, a.counters["spellings_agreeing"] > 0), ({}, True))
 
+# ---- verbatim templates: "double-quoted identifiers are stored and resolved exactly as entered" ------------------------
+VT_SQL = 'select count(*) as "<total>", sum(k) as "<total_k>", v unq from t'
+check("vslots", R.vslots(VT_SQL), ["total", "total_k"])
+check("vslots: a repeated word is one slot",
+      R.vslots('with c as (select k as "<ck>" from t) select "<ck>" from c'), ["ck"])
+check("vrender lower", R.vrender(VT_SQL, "l"), 'select count(*) as "total", sum(k) as "total_k", v unq from t')
+check("vrender per slot", R.vrender(VT_SQL, ("c", "u")),
+      'select count(*) as "Total", sum(k) as "TOTAL_K", v unq from t')
+check("vrender alternating", R.vrender('select 1 as "<c_one>"', "a"), 'select 1 as "c_OnE"')
+check("vrender: definition and reference together",
+      R.vrender('with c as (select k as "<ck>" from t) select "<ck>" from c', ("c",)),
+      'with c as (select k as "Ck" from t) select "Ck" from c')
+check("vrender leaves other quoted identifiers alone",
+      R.vrender('select "cA" as "<ca>" from "qT"', "u"), 'select "cA" as "CA" from "qT"')
+# Snowflake: select count(*) as "Total", v unq  -> columns Total, UNQ
+check("vreported: quoted verbatim, unquoted upper",
+      R.vreported(['"<total>"', '"<total_k>"', "unq"], VT_SQL, ("c", "l")), ("Total", "total_k", "UNQ"))
+check("vreported upper", R.vreported(['"<total>"', '"<total_k>"', "unq"], VT_SQL, "u"), ("TOTAL", "TOTAL_K", "UNQ"))
+check("vreported: fixed quoted column", R.vreported(['"cA"', '"<ca>"'], 'select "cA", 1 as "<ca>"', "l"), ("cA", "ca"))
+raises("vslots: upper-case slot word", lambda: R.vslots('select 1 as "<Total>"'), ValueError)
+raises("vslots: one-letter slot word", lambda: R.vslots('select 1 as "<a>"'), ValueError)
+raises("vrender: wrong number of forms", lambda: R.vrender(VT_SQL, ("l",)), ValueError)
+check("vspellings quick, one slot", R.vspellings(1, "quick"), [("l",), ("u",), ("c",), ("a",)])
+check("vspellings quick, two slots", R.vspellings(2, "quick"),
+      [("l", "l"), ("u", "u"), ("c", "c"), ("a", "a"), ("u", "l"), ("l", "u")])
+check("vspellings thorough, two slots", len(set(R.vspellings(2, "thorough"))), 16)
+h = R.vhistories(R.vspellings(1, "quick"), "quick")
+check("vhistories: ordered pairs of different spellings", (len(h), len(set(h)), all(a != b for a, b in h)), (12, 12, True))
+check("vhistories: both orders", all((b, a) in h for a, b in h), True)
+h3 = [x for x in R.vhistories(R.vspellings(2, "thorough"), "thorough") if len(x) == 3]
+check("vhistories thorough: triples", (len(h3), sum(1 for x in h3 if x[0] == x[2])), (36, 12))
+check("vhistories thorough: pairs", len([x for x in R.vhistories(R.vspellings(2, "thorough"), "thorough") if len(x) == 2]), 240)
+# the catalogue of verbatim templates is consistent with the model
+for vt in c02.VERBATIM_TEMPLATES:
+    check(f"{vt.id}: every slot is a reported column", [w for w in vt.slots if f'"<{w}>"' not in vt.cols], [])
+    rep = [R.vreported(vt.cols, vt.sql, f) for f in R.FORMS]
+    check(f"{vt.id}: four spellings, four different reports", len(set(rep)), 4)
+    check(f"{vt.id}: reports differ in letter case only", len({tuple(x.upper() for x in r) for r in rep}), 1)
+    check(f"{vt.id}: no repeated column name", [len(set(r)) == len(r) for r in rep], [True] * 4)
+    check(f"{vt.id}: upper rest keeps quoted text and placeholder",
+          (c02._vsql(vt, "c", "u").count("%s"), [q for q in R.vrender(vt.sql, "c").split('"')[1::2]]),
+          (vt.sql.count("%s"), [q for q in c02._vsql(vt, "c", "u").split('"')[1::2]]))
+check("vsql upper rest", c02._vsql(c02.VTPL["v_bound"], "c", "u"), 'SELECT %s AS "Bound", K FROM T ORDER BY K')
+check("quick arrangements exist", [a for a in c02.QUICK_ARRANGEMENTS if a not in c02.ARRANGEMENTS], [])
+check("arrangements cover same / other / conn in quick",
+      sorted({c02.ARRANGEMENTS[a][0] for a in c02.QUICK_ARRANGEMENTS}), ["conn", "other", "same"])
+vt0 = c02.VTPL["v_alias"]
+check("vclass first", c02.vclass(vt0, "same-dict", "none", 0, (("l", "l"), ("u", "u"))), "stmt=v_alias,cursor=same,step=first")
+check("vclass later", c02.vclass(vt0, "other-tuple-dict", "none", 1, (("l", "l"), ("u", "u"))),
+      "stmt=v_alias,cursor=other,step=later")
+check("vclass seen before + between", c02.vclass(vt0, "conn-dict", "set", 2, (("l", "l"), ("u", "u"), ("l", "l"))),
+      "stmt=v_alias,cursor=conn,step=later,spelling=seen-before,between=set")
+pl = c02.vplan("quick")
+check("vplan quick", (len(pl), sum(len(i[4]) for i in pl)), (55, 1110))
+
 if FAILS:
     print(f"selftest C02: {len(FAILS)} of {N[0]} checks FAILED")
     for f in FAILS:
